@@ -13,7 +13,11 @@ FAILCLOSED = {
     'generate': [{'src': 'oslo_utils/strutils.py', 'mod': 'oslo_utils.strutils',
                   'constants': ['UNIT_PREFIX_EXPONENT', 'UNIT_SYSTEM_INFO'], 'imports': {'re': 're'}},
                  {'src': 'oslo_utils/imageutils/qemu.py', 'mod': 'oslo_utils.imageutils.qemu',
-                  'classes': {'QemuImgInfo': {}}, 'constants': ['QemuImgInfo.SIZE_RE'], 'imports': {'re': 're'}}],
+                  'classes': {'QemuImgInfo': {}}, 'constants': ['QemuImgInfo.SIZE_RE', 'QemuImgInfo.TOP_LEVEL_RE'], 'imports': {'re': 're'}},
+                 # oslo_utils.units: the SI / IEC constants the property's "base 1024 for IEC, 1000 for SI" refers to (cross-check only:
+                 # string_to_bytes does not read them; generate_code refuses if it starts to)
+                 {'src': 'oslo_utils/units.py', 'mod': 'oslo_utils.units',
+                  'constants': [c + 'i' for c in 'KMGTPEZYRQ'] + list('kMGTPEZYRQ')}],
     'generate_code': [{'src': 'oslo_utils/strutils.py', 'mod': 'oslo_utils.strutils',
                        'functions': {'string_to_bytes': {'defaults': {'unit_system': _A, 'return_int': _A}}},
                        'constants': ['UNIT_PREFIX_EXPONENT', 'UNIT_SYSTEM_INFO'],
@@ -76,7 +80,9 @@ def generate():
     if not hasattr(size_re, 'pattern'): raise GenError('QemuImgInfo.SIZE_RE is not a compiled regex')
     try:
         split = [split_eos(rx) for _, _, rx in systems]
-        terms = [t for t, _ in split] + [regex_tr.regex_to_coq(size_re)[0]]
+        top_re = getattr(q.QemuImgInfo, 'TOP_LEVEL_RE', None)
+        if not hasattr(top_re, 'pattern'): raise GenError('QemuImgInfo.TOP_LEVEL_RE is not a compiled regex')
+        terms = [t for t, _ in split] + [regex_tr.regex_to_coq(size_re)[0], regex_tr.regex_to_coq(top_re)[0]]
     except regex_tr.Unsupported as e:
         raise GenError('regex outside the supported fragment: %s' % e)
     defs, terms = _share_csets(terms)
@@ -93,8 +99,15 @@ def generate():
     out.append('Definition unit_system_info : list (str * (option Z * (re * bool))) := [%s].' % '; '.join(
         '(%s, (%s, (unit_re_%d, %s)))' % (lit(k), 'None' if base is None else 'Some %d%%Z' % base, i, 'true' if split[i][1] else 'false')
         for i, (k, base, rx) in enumerate(systems)))
+    un = repo_import('oslo_utils.units')
+    consts = [(k, v) for k, v in vars(un).items() if not k.startswith('_') and isinstance(v, int) and not isinstance(v, bool)]
+    if any(not isinstance(k, str) for k, _ in consts): raise GenError('oslo_utils.units: odd name')
+    out.append('(* every integer constant of oslo_utils/units.py, in module order (cross-check of the SI / IEC multipliers) *)')
+    out.append('Definition units_constants : list (str * Z) := [%s].' % '; '.join('(%s, %d%%Z)' % (lit(k), v) for k, v in consts))
     out.append('(* QemuImgInfo.SIZE_RE (flags %d): %s *)' % (size_re.flags, _cm(size_re.pattern)))
-    out.append('Definition size_re : re := %s.' % terms[-1])
+    out.append('Definition size_re : re := %s.' % terms[-2])
+    out.append('(* QemuImgInfo.TOP_LEVEL_RE (flags %d): %s *)' % (top_re.flags, _cm(top_re.pattern)))
+    out.append('Definition top_level_re : re := %s.' % terms[-1])
     return '\n'.join(out) + '\n'
 
 if __name__ == '__main__':
@@ -224,7 +237,11 @@ class _Tr:
             name = exc.func.id if isinstance(exc, ast.Call) and isinstance(exc.func, ast.Name) else None
             if name not in ('ValueError', 'TypeError', 'KeyError', 'OverflowError'): self.fail(s, 'raise')
             for a in exc.args:
-                if not (isinstance(a, ast.Name) and self.types.get(a.id) == 'msg'): self.fail(s, 'raise argument')
+                inline = (isinstance(a, ast.BinOp) and isinstance(a.op, ast.Mod) and isinstance(a.left, ast.Call) and isinstance(a.left.func, ast.Name)
+                          and a.left.func.id == '_' and len(a.left.args) == 1 and isinstance(a.left.args[0], ast.Constant)
+                          and isinstance(a.left.args[0].value, str) and a.left.args[0].value.count('%') == 1 and '%s' in a.left.args[0].value
+                          and isinstance(a.right, ast.Name) and self.types.get(a.right.id) == 'str')
+                if not inline and not (isinstance(a, ast.Name) and self.types.get(a.id) == 'msg'): self.fail(s, 'raise argument')
             return 'Exn %s' % name
         if isinstance(s, ast.Return):
             v = s.value
@@ -341,6 +358,14 @@ def generate_code():
     for n in ast.walk(f):
         if isinstance(n, (ast.Global, ast.Nonlocal, ast.Lambda, ast.FunctionDef)) and n is not f:
             raise GenError('string_to_bytes: nested scope construct')
+    for n in ast.walk(f):
+        if isinstance(n, ast.Name) and n.id == 'units':
+            raise GenError('string_to_bytes reads oslo_utils.units (the multipliers are no longer base ** UNIT_PREFIX_EXPONENT[prefix] alone)')
+    sm = repo_import('oslo_utils.strutils')
+    import types as _types
+    for k, v in vars(sm).items():
+        if isinstance(v, _types.ModuleType) and v.__name__ == 'oslo_utils.units':
+            raise GenError('oslo_utils.strutils imports oslo_utils.units as %s' % k)
     tr = _Tr([('text', 'str'), ('unit_system', 'str'), ('return_int', 'bool')])
     body = tr.block(f.body)
     out = [HEADER % ('oslo_utils/strutils.py', 'tools/gen/gen_C10.py (statement-level)')]
@@ -349,4 +374,262 @@ def generate_code():
     out.append('Open Scope Z_scope.')
     out.append('Definition gen_default_unit_system : str := %s%%N.' % lit(dflt[0]))
     out.append('Definition gen_string_to_bytes (text unit_system : str) (return_int : bool) : res num :=\n%s.' % body)
+    return '\n'.join(out) + '\n'
+
+
+# ---------------------------------------------------------------------------------------------------
+# QemuImgInfo (human format): statement-level translation of _canonicalize, _extract_bytes and of the
+# size-field branch of _extract_details (Gen/C10_QemuCode.v), plus TOP_LEVEL_RE.
+# ---------------------------------------------------------------------------------------------------
+FAILCLOSED['generate_qemu'] = [
+    {'src': 'oslo_utils/imageutils/qemu.py', 'mod': 'oslo_utils.imageutils.qemu',
+     'classes': {'QemuImgInfo': {}},
+     'functions': {'QemuImgInfo._canonicalize': {'defaults': {}}, 'QemuImgInfo._extract_bytes': {'defaults': {}},
+                   'QemuImgInfo._extract_details': {'defaults': {}}, 'QemuImgInfo._parse': {'defaults': {}}},
+     'constants': ['QemuImgInfo.SIZE_RE', 'QemuImgInfo.TOP_LEVEL_RE'],
+     'imports': {'re': 're', 'strutils': 'oslo_utils.strutils', '_': 'oslo_utils._i18n:_'}},
+    # _extract_bytes calls string_to_bytes(text, return_int=True): the model hard-wires the default unit system (s2b_int)
+    {'src': 'oslo_utils/strutils.py', 'mod': 'oslo_utils.strutils',
+     'functions': {'string_to_bytes': {'defaults': {'unit_system': "'IEC'", 'return_int': 'False'}}}}]
+
+class _TrQ(_Tr):
+    """the int-returning methods of QemuImgInfo: values are str-or-None, results are `res Z`"""
+    def __init__(self, params, what):
+        _Tr.__init__(self, params)
+        self.what = what
+
+    def fail(self, node, why):
+        raise GenError('%s: %s: %s' % (self.what, why, ast.unparse(node)[:80]))
+
+    def expr(self, e, narrowed=()):
+        # len(x) for a narrowed str
+        if isinstance(e, ast.Call) and isinstance(e.func, ast.Name) and e.func.id == 'len' and len(e.args) == 1 and not e.keywords:
+            a, ta = self.expr(e.args[0], narrowed)
+            if ta == 'str': return '(zlen %s)' % a, 'int'
+            self.fail(e, 'len of a possibly-None value')
+        if isinstance(e, ast.Compare) and len(e.ops) == 1 and isinstance(e.ops[0], (ast.Eq, ast.NotEq)):
+            a, ta = self.expr(e.left, narrowed); b, tb = self.expr(e.comparators[0], narrowed)
+            if ta == tb == 'int':
+                t = '(%s =? %s)%%Z' % (a, b)
+                return (t if isinstance(e.ops[0], ast.Eq) else '(negb %s)' % t), 'bool'
+            if ta == tb == 'str':
+                t = '(beq %s %s)' % (a, b)
+                return (t if isinstance(e.ops[0], ast.Eq) else '(negb %s)' % t), 'bool'
+            self.fail(e, 'comparison')
+        # "c" in x.lower()   for a narrowed str x
+        if (isinstance(e, ast.Compare) and len(e.ops) == 1 and isinstance(e.ops[0], ast.In) and isinstance(e.left, ast.Constant)
+                and isinstance(e.left.value, str) and e.left.value
+                and isinstance(e.comparators[0], ast.Call) and isinstance(e.comparators[0].func, ast.Attribute)
+                and e.comparators[0].func.attr == 'lower' and not e.comparators[0].args and not e.comparators[0].keywords):
+            o, to = self.expr(e.comparators[0].func.value, narrowed)
+            if to == 'str': return '(occursb (%s%%N : str) (py_lower %s))' % (lit(e.left.value), o), 'bool'
+            self.fail(e, 'method call on a possibly-None value')
+        return _Tr.expr(self, e, narrowed)
+
+    def optvars_needing_value(self, test):
+        """names of str-or-None variables the test dereferences (len(x), x.method(...)): None there raises"""
+        out = []
+        for n in ast.walk(test):
+            v = None
+            if isinstance(n, ast.Call) and isinstance(n.func, ast.Name) and n.func.id == 'len' and len(n.args) == 1 and isinstance(n.args[0], ast.Name):
+                v, exn = n.args[0].id, 'TypeError'
+            elif isinstance(n, ast.Call) and isinstance(n.func, ast.Attribute) and isinstance(n.func.value, ast.Name):
+                v, exn = n.func.value.id, 'AttributeError'
+            if v is not None and self.types.get(v) == 'optstr' and v not in [x for x, _ in out]:
+                out.append((v, exn))
+        return out
+
+    def int_of(self, e):
+        """Coq `res Z` for the Python expression int(e), e str-or-None"""
+        a, ta = self.expr(e)
+        if ta == 'str': a = '(Some %s)' % a
+        elif ta != 'optstr': self.fail(e, 'int() of a %s' % ta)
+        return '(int_of_optstr %s)' % a
+
+    def block(self, stmts):
+        if not stmts:
+            raise GenError('%s: control reaches the end of the function (returns None)' % self.what)
+        s, rest = stmts[0], stmts[1:]
+        if isinstance(s, ast.Return):
+            v = s.value
+            if isinstance(v, ast.Name) and self.types.get(v.id) == 'int':
+                return 'Ok %s' % self.var(v.id)
+            if isinstance(v, ast.Name) and self.types.get(v.id) == 'str':
+                return self.var(v.id)
+            if isinstance(v, ast.Call) and isinstance(v.func, ast.Name) and v.func.id == 'int' and len(v.args) == 1 and not v.keywords:
+                return self.int_of(v.args[0])
+            # strutils.string_to_bytes('{}{}'.format(a, b), return_int=True)
+            if (isinstance(v, ast.Call) and ast.unparse(v.func) == 'strutils.string_to_bytes' and len(v.args) == 1
+                    and [(k.arg, isinstance(k.value, ast.Constant) and k.value.value) for k in v.keywords] == [('return_int', True)]):
+                f = v.args[0]
+                if (isinstance(f, ast.Call) and isinstance(f.func, ast.Attribute) and f.func.attr == 'format' and not f.keywords
+                        and isinstance(f.func.value, ast.Constant) and isinstance(f.func.value.value, str)
+                        and f.func.value.value == '{}' * len(f.args) and f.args):
+                    parts = []
+                    for a in f.args:
+                        c, t = self.expr(a)
+                        if t == 'str': c = '(Some %s)' % c
+                        elif t != 'optstr': self.fail(s, 'format() argument')
+                        parts.append('str_of_optstr %s' % c)
+                    return '(s2b_int (%s))' % ' ++ '.join(parts)
+            self.fail(s, 'return')
+        if isinstance(s, ast.Raise) or isinstance(s, ast.Try):
+            return _Tr.block(self, stmts) if isinstance(s, ast.Raise) else self.try_(s, rest)
+        return _Tr.block(self, stmts)
+
+    def try_(self, s, rest):
+        # try: x = self._extract_bytes(y) / except E: <handler>      (E raised by the call is diverted to the handler)
+        if s.orelse or s.finalbody or len(s.body) != 1 or len(s.handlers) != 1 or not isinstance(s.body[0], ast.Assign):
+            self.fail(s, 'try shape')
+        h = s.handlers[0]
+        names = [h.type.id] if isinstance(h.type, ast.Name) else ([x.id for x in h.type.elts] if isinstance(h.type, ast.Tuple) and all(isinstance(x, ast.Name) for x in h.type.elts) else None)
+        if h.type is None or (names and 'Exception' in names) or (names and 'BaseException' in names): names = ['_']
+        if not names or h.name is not None: self.fail(s, 'except clause')
+        call = self.raising_call(s.body[0].value)
+        if call is None: self.fail(s, 'try body is not a raising call')
+        saved = dict(self.types)
+        handler = self.block(h.body + rest)
+        self.types = dict(saved)
+        name = s.body[0].targets[0].id
+        self.types[name] = 'int'
+        ok = self.block(rest)
+        pats = ' | '.join(names)
+        return 'match %s with\n| Ok %s => (\n%s)\n| Exn e_ => match e_ with %s => (\n%s)%s end\nend' % (
+            call, self.var(name), ok, pats, handler, '' if names == ['_'] else '\n| _ => Exn e_')
+
+    def raising_call(self, v):
+        if (isinstance(v, ast.Call) and ast.unparse(v.func) == 'self._extract_bytes' and len(v.args) == 1 and not v.keywords):
+            a, ta = self.expr(v.args[0])
+            if ta == 'str': return '(gen_extract_bytes %s)' % a
+        return None
+
+    def assign(self, name, v, rest, node):
+        # m = self.SIZE_RE.search(subject)
+        if (isinstance(v, ast.Call) and ast.unparse(v.func) == 'self.SIZE_RE.search' and len(v.args) == 1 and not v.keywords
+                and isinstance(v.args[0], ast.Name) and self.types.get(v.args[0].id) == 'str'):
+            self.types[name] = 'match'; self.subject[name] = v.args[0].id
+            return 'let %s := search_groups size_re %s in\n%s' % (self.var(name), self.var(v.args[0].id), self.block(rest))
+        # x = format(float(e), '.0f')
+        if (isinstance(v, ast.Call) and isinstance(v.func, ast.Name) and v.func.id == 'format' and len(v.args) == 2 and not v.keywords
+                and isinstance(v.args[1], ast.Constant) and v.args[1].value == '.0f'
+                and isinstance(v.args[0], ast.Call) and isinstance(v.args[0].func, ast.Name) and v.args[0].func.id == 'float'
+                and len(v.args[0].args) == 1 and not v.args[0].keywords):
+            a, ta = self.expr(v.args[0].args[0])
+            if ta == 'str': a = '(Some %s)' % a
+            elif ta != 'optstr': self.fail(node, 'float() of a %s' % ta)
+            if self.types.get(name) not in (None, 'optstr'): self.fail(node, 'retyped variable')
+            self.types[name] = 'optstr'
+            return 'match float_of_optstr %s with Exn e_ => Exn e_ | Ok f_ =>\nlet %s := Some (float_fmt_f0 f_) in\n%s end' % (a, self.var(name), self.block(rest))
+        # x = x + 'B'  (from x += 'B') for a str-or-None x
+        if (isinstance(v, ast.BinOp) and isinstance(v.op, ast.Add) and isinstance(v.left, ast.Name) and v.left.id == name
+                and self.types.get(name) == 'optstr' and isinstance(v.right, ast.Constant) and isinstance(v.right.value, str)):
+            return 'match %s with None => Exn TypeError | Some x_s =>\nlet %s := Some (x_s ++ (%s%%N : str)) in\n%s end' % (
+                self.var(name), self.var(name), lit(v.right.value), self.block(rest))
+        # x = self._extract_bytes(y)
+        call = self.raising_call(v)
+        if call is not None:
+            if self.types.get(name) not in (None, 'int'): self.fail(node, 'retyped variable')
+            self.types[name] = 'int'
+            return 'match %s with Exn e_ => Exn e_ | Ok %s =>\n%s end' % (call, self.var(name), self.block(rest))
+        # x = 0
+        if isinstance(v, ast.Constant) and isinstance(v.value, int) and not isinstance(v.value, bool):
+            if self.types.get(name) not in (None, 'int'): self.fail(node, 'retyped variable')
+            self.types[name] = 'int'
+            return 'let %s := (%d)%%Z in\n%s' % (self.var(name), v.value, self.block(rest))
+        # field = field.lower().strip()
+        if (isinstance(v, ast.Call) and isinstance(v.func, ast.Attribute) and v.func.attr == 'strip' and not v.args and not v.keywords
+                and isinstance(v.func.value, ast.Call) and isinstance(v.func.value.func, ast.Attribute) and v.func.value.func.attr == 'lower'
+                and not v.func.value.args and isinstance(v.func.value.func.value, ast.Name) and self.types.get(v.func.value.func.value.id) == 'str'):
+            self.types[name] = 'str'
+            return 'let %s := strip (py_lower %s) in\n%s' % (self.var(name), self.var(v.func.value.func.value.id), self.block(rest))
+        return _Tr.assign(self, name, v, rest, node)
+
+    def if_(self, s, rest):
+        t = s.test
+        saved = dict(self.types)
+        # if not m:   for a match object
+        if isinstance(t, ast.UnaryOp) and isinstance(t.op, ast.Not) and isinstance(t.operand, ast.Name) and self.types.get(t.operand.id) == 'match':
+            m = t.operand.id
+            a = self.block(s.body + rest)
+            self.types = dict(saved)
+            b = self.block(s.orelse + rest)
+            self.types = dict(saved)
+            return 'match %s with\n| None => (\n%s)\n| Some g_%s => (\n%s)\nend' % (self.var(m), a, m, b)
+        need = self.optvars_needing_value(t)
+        if need:
+            # the test dereferences str-or-None variables: None raises, otherwise the test is evaluated on the str
+            cond = self.truth(t, tuple(v for v, _ in need))
+            a = self.block(s.body + rest); self.types = dict(saved)
+            b = self.block(s.orelse + rest); self.types = dict(saved)
+            inner = 'if %s then (\n%s) else (\n%s)' % (cond, a, b)
+            for v, exn in reversed(need):
+                inner = 'match %s with\n| None => Exn %s\n| Some %s_s => (\n%s)\nend' % (self.var(v), exn, v, inner)
+            return inner
+        return _Tr.if_(self, s, rest)
+
+def _canonicalize_code(fn):
+    """def _canonicalize(self, field): field = field.lower().strip(); for c in (consts): field = field.replace(c, const); return field"""
+    if [a.arg for a in fn.args.args] != ['self', 'field']: raise GenError('_canonicalize: signature')
+    body = [s for s in fn.body if not (isinstance(s, ast.Expr) and isinstance(s.value, ast.Constant))]
+    out = []
+    tr = _TrQ([('field', 'str')], '_canonicalize')
+    for s in body[:-1]:
+        if isinstance(s, ast.Assign) and len(s.targets) == 1 and isinstance(s.targets[0], ast.Name) and s.targets[0].id == 'field':
+            txt = tr.assign('field', s.value, [ast.Return(value=ast.Name(id='field', ctx=ast.Load()))], s)
+            out.append(txt.rsplit('\n', 1)[0])
+        elif (isinstance(s, ast.For) and not s.orelse and isinstance(s.target, ast.Name) and isinstance(s.iter, (ast.Tuple, ast.List))
+              and all(isinstance(x, ast.Constant) and isinstance(x.value, str) and x.value for x in s.iter.elts) and len(s.body) == 1):
+            b = s.body[0]
+            ok = (isinstance(b, ast.Assign) and ast.unparse(b.targets[0]) == 'field' and isinstance(b.value, ast.Call)
+                  and ast.unparse(b.value.func) == 'field.replace' and len(b.value.args) == 2 and not b.value.keywords
+                  and isinstance(b.value.args[0], ast.Name) and b.value.args[0].id == s.target.id
+                  and isinstance(b.value.args[1], ast.Constant) and isinstance(b.value.args[1].value, str))
+            if not ok: raise GenError('_canonicalize: loop body: ' + ast.unparse(b))
+            for x in s.iter.elts:      # the loop over a literal tuple, unrolled
+                out.append('let field := replace (%s%%N : str) (%s%%N : str) field in' % (lit(x.value), lit(b.value.args[1].value)))
+        else:
+            raise GenError('_canonicalize: statement outside the subset: ' + ast.unparse(s)[:60])
+    if not (isinstance(body[-1], ast.Return) and ast.unparse(body[-1].value) == 'field'): raise GenError('_canonicalize: return')
+    return 'Definition gen_canonicalize (field : str) : str :=\n%s\nfield.' % '\n'.join(out)
+
+def generate_qemu():
+    got = failclosed.check_all(FAILCLOSED['generate_qemu'])
+    q = repo_import('oslo_utils.imageutils.qemu')
+    tree = repo_ast('oslo_utils/imageutils/qemu.py')
+    fb = find_def(tree, '_extract_bytes', 'QemuImgInfo')
+    if [a.arg for a in fb.args.args] != ['self', 'details'] or fb.args.defaults: raise GenError('_extract_bytes: signature')
+    eb = _TrQ([('details', 'str')], '_extract_bytes').block(fb.body)
+    # _extract_details: real_details = root_details ; if/elif chain on root_cmd ; return real_details
+    fd = find_def(tree, '_extract_details', 'QemuImgInfo')
+    if [a.arg for a in fd.args.args] != ['self', 'root_cmd', 'root_details', 'lines_after'] or fd.args.defaults:
+        raise GenError('_extract_details: signature')
+    body = [s for s in fd.body if not (isinstance(s, ast.Expr) and isinstance(s.value, ast.Constant))]
+    if not (len(body) == 3 and ast.unparse(body[0]) == 'real_details = root_details' and isinstance(body[1], ast.If)
+            and ast.unparse(body[2]) == 'return real_details'):
+        raise GenError('_extract_details: not "real_details = root_details; if/elif chain; return real_details"')
+    def chain(node):
+        tr = _TrQ([('root_cmd', 'str'), ('root_details', 'str')], '_extract_details')
+        test, ty = tr.expr(node.test)        # every test of the chain must be a pure test on root_cmd
+        if ty != 'bool' or any(isinstance(n, ast.Name) and n.id not in ('root_cmd',) for n in ast.walk(node.test)):
+            raise GenError('_extract_details: test outside the subset: ' + ast.unparse(node.test))
+        is_size = (isinstance(node.test, ast.Compare) and isinstance(node.test.ops[0], ast.In)
+                   and any(isinstance(x, ast.Constant) and x.value == 'virtual_size' for x in node.test.comparators[0].elts))
+        if is_size:
+            tr.types['real_details'] = None; del tr.types['real_details']
+            then = 'Some (\n%s)' % tr.block(node.body + [body[2]])
+        else:
+            then = 'None'      # another kind of field: not modelled here
+        if not node.orelse: els = 'None'
+        elif len(node.orelse) == 1 and isinstance(node.orelse[0], ast.If): els = chain(node.orelse[0])
+        else: raise GenError('_extract_details: else branch')
+        return 'if %s then %s else (\n%s)' % (test, then, els)
+    sd = chain(body[1])
+    out = [HEADER % ('oslo_utils/imageutils/qemu.py', 'tools/gen/gen_C10.py (statement-level)')]
+    out.append('Require Import OV.Base.Bytes OV.Base.Py OV.Base.PyInt OV.Base.Str OV.Base.Regex OV.Base.PyFloat.')
+    out.append('Require Import OV.Model.C10_Regex OV.Gen.C10_Units OV.Model.C10.')
+    out.append('Open Scope Z_scope.')
+    out.append(_canonicalize_code(find_def(tree, '_canonicalize', 'QemuImgInfo')))
+    out.append('Definition gen_extract_bytes (details : str) : res Z :=\n%s.' % eb)
+    out.append('(* _extract_details restricted to the byte-size fields: None = another kind of field *)')
+    out.append('Definition gen_size_details (root_cmd root_details : str) : option (res Z) :=\n%s.' % sd)
     return '\n'.join(out) + '\n'
